@@ -20,7 +20,7 @@ STALE_ONLY = {'W_BothSawStale', 'W_RemovedNew', 'W_RemoveMissing', 'W_TwoAcquire
               'W_RemoveFailed', 'W_KilledBeforeRemove'}
 GHOST_ONLY = {'W_GhostCreateLost'}
 FAULT_ONLY = {'W_StatFailed', 'W_RemoveFailed', 'W_CreateFailed', 'W_KilledBeforeRemove', 'W_KilledBeforeCreate', 'W_KilledThenAcquired'}
-SAFETY = ['TypeOK', 'NoGrandchild', 'NoChildWhenOff', 'ChildOnlyIfNeeded', 'AtMostOneAcquire', 'HolderKeepsToken', 'OnlyApplicationsAcquire',
+SAFETY = ['TypeOK', 'SidecarSeesMarker', 'NoGrandchild', 'NoChildWhenOff', 'ChildOnlyIfNeeded', 'AtMostOneAcquire', 'HolderKeepsToken', 'OnlyApplicationsAcquire',
           'SequentialAgreesWithTable', 'PairAgreesWithTable']
 ALL_TOKENS = ['absent', 'fresh', 'stale', 'ghost']
 
@@ -29,9 +29,9 @@ def tset(xs):
     return '{' + ', '.join(('"%s"' % x) if isinstance(x, str) else ('TRUE' if x else 'FALSE') for x in xs) + '}'
 
 
-def proto_cfg(starters, markers, crash, upload, modes, tokens, local, spec='Spec', invariants=(), props=(), deadlock=False, faults=0):
-    s = ('SPECIFICATION %s\nCONSTANTS\n Starters = %s\n MarkerSet = %s\n CrashSet = %s\n UploadSet = %s\n ModeSet = %s\n TokenSet = %s\n LocalSet = %s\n MaxFaults = %d\n' % (
-        spec, tset(starters), tset(markers), tset(crash), tset(upload), tset(modes), tset(tokens), tset(local), faults))
+def proto_cfg(starters, markers, crash, upload, modes, tokens, local, spec='Spec', invariants=(), props=(), deadlock=False, faults=0, leak=(False,)):
+    s = ('SPECIFICATION %s\nCONSTANTS\n Starters = %s\n MarkerSet = %s\n LeakSet = %s\n CrashSet = %s\n UploadSet = %s\n ModeSet = %s\n TokenSet = %s\n LocalSet = %s\n MaxFaults = %d\n' % (
+        spec, tset(starters), tset(markers), tset(list(leak)), tset(crash), tset(upload), tset(modes), tset(tokens), tset(local), faults))
     if invariants:
         s += 'INVARIANTS ' + ' '.join(invariants) + '\n'
     if props:
@@ -145,7 +145,8 @@ def concretize(rid, st, dealer, rng, k):
         uv = dealer.deal('upvar', row['upload'])
         upvar, cfg_upload = uv['text'], rng.random() < 0.5
     else:
-        upvar, cfg_upload = ('1' if ext['leak'] else 'unset'), row['upload']
+        # an inherited flag other than "1" (set but empty, "0") must not matter: the parent appends its own after it
+        upvar, cfg_upload = ('1' if ext['leak'] else ['unset', '', '0'][k % 3]), row['upload']
     goes = pred['launched'] > pred['sidecars']
     calls = ext['calls']
     kind = 'row'
@@ -213,17 +214,17 @@ def run(ctx):
     jobs.append((('SidecarConcrete',), dict(dump=True, label='SidecarConcrete (shapes)', workers=1)))
     meta.append('shapes')
     # a single starter, every row: the protocol's quiescent outcome is the table's row
-    jobs.append((('Sidecar',), dict(cfg_text=proto_cfg(['s1'], ['unset', '1', '2', 'other'], [True, False], [True, False], ['on', 'local', 'off'],
+    jobs.append((('Sidecar',), dict(cfg_text=proto_cfg(['s1'], ['unset', 'empty', '1', '2', 'other'], [True, False], [True, False], ['on', 'local', 'off'],
                                                        ALL_TOKENS, [True, False], spec='FairSpec', invariants=SAFETY,
-                                                       props=['Termination']),
+                                                       props=['Termination'], leak=(True, False)),
                                     label='Sidecar[one starter, all rows]', workers=2)))
     meta.append('one')
     fams = [
-        ('race2', dict(starters=['s1', 's2'], markers=['unset', '2'], crash=[True, False], upload=[True, False], modes=['on', 'local', 'off'],
+        ('race2', dict(starters=['s1', 's2'], markers=['unset', 'empty', '2'], crash=[True, False], upload=[True, False], modes=['on', 'local', 'off'],
                        tokens=ALL_TOKENS, local=[True, False], faults=0)),
         ('race3', dict(starters=['s1', 's2', 's3'], markers=['unset'], crash=[True, False], upload=[True], modes=['on'],
                        tokens=ALL_TOKENS, local=[True], faults=0)),
-        ('marked2', dict(starters=['s1', 's2'], markers=['unset', '1', '2', 'other'], crash=[True], upload=[True], modes=['on', 'off'],
+        ('marked2', dict(starters=['s1', 's2'], markers=['unset', 'empty', '1', '2', 'other'], crash=[True], upload=[True], modes=['on', 'off'],
                          tokens=['absent', 'stale'], local=[True], faults=0)),
         # failing system calls and killed starters
         ('fault2', dict(starters=['s1', 's2'], markers=['unset'], crash=[False], upload=[True], modes=['on'],
@@ -382,7 +383,7 @@ def run(ctx):
             raise Infra('row %d: %d of %d started processes logged their start\n%s' % (x['id'], o['rootsLogged'], o['n'], json.dumps(o)[:1500]))
         if o['timedOut']:
             ctx.warn('row %d (%s): processes still alive after 20 s were killed' % (x['id'], row_text(x)))
-        y = {k: o[k] for k in ('kind', 'id', 'marker', 'crash', 'upload', 'mode', 'token', 'localOK', 'sidecars', 'uploaders', 'nested',
+        y = {k: o[k] for k in ('kind', 'id', 'marker', 'crash', 'upload', 'mode', 'token', 'localOK', 'sidecars', 'uploaders', 'nested', 'unmarked',
                                'launched', 'acquired', 'wrote', 'fatal')}
         y.update({k: x[k] for k in ('calls', 'dbg', 'leak', 'appCrash')})
         lines.append(y)
@@ -402,10 +403,10 @@ def run(ctx):
     for (idx, clause) in sorted(tuple(b) for b in bad):
         x, o = order[idx - 1], got[order[idx - 1]['id']]
         text = ('row %d (%s; kind=%s n=%d calls=%d dbg=%s leak=%s appCrash=%s; marker %r, mode file %s %r, token %s age %d s, local %s, via %s, entry %s): '
-                '%s is false on the real processes: sidecars=%d uploaders=%d nested=%d launched=%d acquired=%s wrote=%s; changed: %s; process log: %s' % (
+                '%s is false on the real processes: sidecars=%d uploaders=%d nested=%d unmarked=%d launched=%d acquired=%s wrote=%s; changed: %s; process log: %s' % (
                     x['id'], row_text(x), x['kind'], o['n'], x['calls'], x['dbg'], x['leak'], x['appCrash'], x['markerText'] if x['markerSet'] else None,
                     x['modeKind'], x['modeText'], x['tokenKind'], x['tokenAge'], x['localKind'], x['cfgVia'], x['entry'], clause,
-                    o['sidecars'], o['uploaders'], o['nested'], o['launched'], o['acquired'], o['wrote'], (o['changed'] or [])[:8],
+                    o['sidecars'], o['uploaders'], o['nested'], o['unmarked'], o['launched'], o['acquired'], o['wrote'], (o['changed'] or [])[:8],
                     json.dumps([(e['pid'], e['lineage'], e['marker'], e['upvar'], e['role']) for e in (o['entries'] or [])][:8])))
         if x['silent']:
             # a shape the documentation says nothing about: not a violation
